@@ -27,6 +27,7 @@ eval_of = z3.Function("eval_expr_on_row", z3.IntSort(), z3.IntSort(), TermSort) 
 eval_err = z3.Function("eval_error_kind", z3.IntSort(), z3.IntSort(), z3.IntSort())  # 0 ok, 1 NotBound, 2 TypeError
 pick = z3.Function("compare_pick", TermSort, TermSort, TermSort)                      # min/max by _val
 numeric_of = z3.Function("numeric_value", TermSort, z3.IntSort())
+is_numeric = z3.Function("is_numeric_literal", TermSort, z3.BoolSort())
 dt_of = z3.Function("datatype_of", TermSort, z3.IntSort())
 promote = z3.Function("type_promotion", z3.IntSort(), z3.IntSort(), z3.IntSort())
 
@@ -43,14 +44,14 @@ class AggModel(RDFModel):
             declare_class(cls, fields={"value": INT if cls in ("Counter", "Sum") else
                                        (TOpt(TERM) if cls == "Extremum" else TList(TERM) if cls == "GroupConcat" else INT),
                                        "expr": INT, "distinct": BOOL, "seen": TSet(TERM), "counter": INT, "sum": INT,
-                                       "datatype": TOpt(INT)})
+                                       "datatype": TOpt(INT), "error": BOOL})
         declare_class("Row", fields={})
         declare_class("Aggregator", fields={})
         g = self.globals
         g["NotBoundError"] = ClassRef("NotBoundError")
         g["SPARQLTypeError"] = ClassRef("SPARQLTypeError")
         g["_eval"] = Builtin("_eval", self.b_eval)
-        g["numeric"] = Builtin("numeric", lambda it, a, k: SV(INT, numeric_of(a[0].z)))
+        g["numeric"] = Builtin("numeric", self.b_numeric)
         g["type_promotion"] = Builtin("type_promotion", lambda it, a, k: SV(INT, promote(it.path.inject(INT, a[0]), it.path.inject(INT, a[1]))))
         g["type_safe_numbers"] = Builtin("type_safe_numbers", lambda it, a, k: tuple(a))
         g["sum"] = Builtin("sum", lambda it, a, k: it.binop(__import__("ast").Add(), a[0][0], a[0][1]))
@@ -61,6 +62,12 @@ class AggModel(RDFModel):
             "min/max(key=_val) picks one of its two arguments (uninterpreted choice function)",
         ]
         self.declare()
+
+    def b_numeric(self, it, a, k):
+        """numeric(term): the number, or SPARQLTypeError for a term that is not a numeric literal"""
+        if it.path.choose(z3.Not(is_numeric(a[0].z))):
+            raise PyExc("SPARQLTypeError", ())
+        return SV(INT, numeric_of(a[0].z))
 
     def b_eval(self, it, a, k):
         p = it.path
@@ -125,32 +132,38 @@ class AggModel(RDFModel):
         def sum_post(c):
             st0, st1, s = c.old, c.new, c.self.z
             e, r = F(st0, "Sum", "expr", s), c.args["row"].z
-            ok = eval_err(e, r) == 0
             ev = eval_of(e, r)
+            ok = z3.And(eval_err(e, r) == 0, is_numeric(ev))
+            bad = z3.And(eval_err(e, r) == 0, z3.Not(is_numeric(ev)))
             oi = option_sort(z3.IntSort())
             d0, d1 = F(st0, "Sum", "datatype", s), F(st1, "Sum", "datatype", s)
             return [("sum-step", F(st1, "Sum", "value", s) == F(st0, "Sum", "value", s) + z3.If(ok, numeric_of(ev), 0)),
                     ("datatype-is-the-fold-of-type-promotion", d1 == z3.If(
-                        ok, z3.If(oi.is_none(d0), oi.some(dt_of(ev)), oi.some(promote(oi.get(d0), dt_of(ev)))), d0))]
+                        ok, z3.If(oi.is_none(d0), oi.some(dt_of(ev)), oi.some(promote(oi.get(d0), dt_of(ev)))), d0)),
+                    ("a-non-numeric-member-makes-the-sum-an-error", F(st1, "Sum", "error", s) == z3.Or(F(st0, "Sum", "error", s), bad))]
         self.add(Contract("C08", REL, "Sum.update", row_p, self_ty=TObj("Sum"),
                           pre=lambda c: z3.And(common(c, "Sum"), eval_err(F(c.old, "Sum", "expr", c.self.z), c.args["row"].z) != 2),
-                          post=sum_post, modifies=[("Sum", "value"), ("Sum", "datatype"), TSet(TERM)],
-                          note="SUM step: value' = value + numeric(e); datatype' = promotion(datatype, datatype(e))"))
+                          post=sum_post, modifies=[("Sum", "value"), ("Sum", "datatype"), ("Sum", "error"), TSet(TERM)],
+                          note="SUM step: value' = value + numeric(e); datatype' = promotion(datatype, datatype(e)); a member "
+                               "that is not a numeric literal sets the error flag and changes nothing else; unbound rows skip"))
 
         # AVG
         def avg_post(c):
             st0, st1, s = c.old, c.new, c.self.z
             e, r = F(st0, "Average", "expr", s), c.args["row"].z
-            ok = eval_err(e, r) == 0
             ev = eval_of(e, r)
+            ok = z3.And(eval_err(e, r) == 0, is_numeric(ev))
+            bad = z3.Or(eval_err(e, r) == 2, z3.And(eval_err(e, r) == 0, z3.Not(is_numeric(ev))))
             return [("avg-step", z3.And(
                 F(st1, "Average", "sum", s) == F(st0, "Average", "sum", s) + z3.If(ok, numeric_of(ev), 0),
-                F(st1, "Average", "counter", s) == F(st0, "Average", "counter", s) + z3.If(ok, 1, 0)))]
+                F(st1, "Average", "counter", s) == F(st0, "Average", "counter", s) + z3.If(ok, 1, 0))),
+                ("a-type-error-makes-the-average-an-error",
+                 F(st1, "Average", "error", s) == z3.Or(F(st0, "Average", "error", s), bad))]
         self.add(Contract("C08", REL, "Average.update", row_p, self_ty=TObj("Average"),
                           pre=lambda c: common(c, "Average"), post=avg_post,
-                          modifies=[("Average", "sum"), ("Average", "counter"), ("Average", "datatype"), TSet(TERM)],
-                          note="AVG step: sum and counter advance together, only for rows whose expression evaluates"))
-
+                          modifies=[("Average", "sum"), ("Average", "counter"), ("Average", "datatype"), ("Average", "error"), TSet(TERM)],
+                          note="AVG step: sum and counter advance together, only for rows whose expression is a number; a "
+                               "type error sets the error flag (the group's average is then unbound)"))
 
 def build():
     return AggModel()
